@@ -23,7 +23,7 @@ PROBES = [
     'EOMONTH(A1;1)', 'OR(A1;B1)', 'NOT(A1)' if False else 'MIN(A1;2)', 'CONCATENATE("a";"b")', 'IFS(A1>1;1;A1>0;2)', '1.', '.5', '1..2',
     # references whose letters begin like a function name, separators in front of a closing bracket
     'IF1', 'OR2+AND3', 'MAX1:MAX3', 'SUM7', 'DAY3*2', 'ORDERS!A1', 'SUMMARY!B1:B3', 'MIN4', 'DATE1', 'SUM(A1;)', 'IF(A1;1;)', '(1,)',
-    'ROUNDUP(1.5;)', 'LEFT("a",)', 'SUM(1;;2)',
+    'ROUNDUP(1.5;)', 'LEFT("a",)', 'SUM(1;;2)', 'SUM(1,2)', 'MAX(3,12)', 'COUNT(A1:A7,3,4)', 'SUM(1.5,2.5)', 'IF(1,2,3)', 'MIN(1;2,3)',
     '""', '"unterminated', 'A1:B2:C3', '((1))', '1*(2+(3-4))', '1+\n2', 'SUM(A1;\nB1)', '"a\nb"&"c"', '1\n', '\n1',
 ]
 # the characters inside text literals and the case of everything reach the token classes as they are in the formula
@@ -176,7 +176,50 @@ NUMBER_PROBES = ['0', '7', '12.5', '1e3', '2.5e3', '1.25e-2', '1.0e2', '5e-1', '
                  '100000.25', '1234567.25', '0.000001234', '123456789012345', '0.1', '1e15', '9007199254740993', '2.5e-7']
 
 
+ARGUMENT_PROBES = [('SUM(1,2)', [1, 2]), ('MAX(3,12)', [3, 12]), ('COUNT(A1:A7,3,4)', [3, 4]), ('SUM(1.5,2.5)', [1.5, 2.5]), ('IF(1;2;3)', [1, 2, 3]),
+                   ('MIN(1;2,3)', [1, 2, 3]), ('SUM(10,20,30)', [10, 20, 30]), ('ROUND(2.5,0)', [2.5, 0]), ('SUM(1 , 2)', [1, 2])]
+
+
+def _numbers_in(ev, toks):
+    out = []
+    for tok in toks.items:
+        val = ev.obj_attrs(tok).get('value') if tok.kind == 'obj' else None
+        if val is not None and isinstance(val.val, (str, int, float)) and not isinstance(val.val, bool):
+            try:
+                out.append(float(val.val))
+            except ValueError:
+                pass
+    return out
+
+
 def number_literal_obligations(run: Run, rule: str, src, g):
+    _argument_obligations(run, rule, src, g)
+    _number_literal_obligations(run, rule, src, g)
+
+
+def _argument_obligations(run: Run, rule: str, src, g):
+    """numbers written as separate arguments stay separate numbers: a comma or semicolon between two numbers is a separator"""
+    from ..finite import AV, const_av, Unknown, AbsRaise
+    lx = src.cls('Lexer')
+    loc = loc_of(lx.module.path, lx.methods['parse'].node)
+    for text, want in ARGUMENT_PROBES:
+        ev, _ = build(src, g)
+        cell = ev.new_obj('Cell', {'title': const_av(0), 'column': const_av(0), 'row': const_av(0)})
+        construct = f'numbers of/{text}'
+        try:
+            toks = ev.unbox(ev.call_method('parse', [const_av(text), cell], AV('other', val=('class', 'Lexer'))))
+            if toks.items is None:
+                raise Unknown('a token list of unknown contents')
+            got = _numbers_in(ev, toks)
+        except Unknown as u:
+            raise AnalysisError(rule, f'{construct}: the abstraction cannot follow the lexer ({u})')
+        except AbsRaise as e:
+            got = f'raises {e.exc}'
+        run.check(got == [float(x) for x in want], rule, construct, 'numbers-merged',
+                  f'the numbers the lexer finds in {text} are {got}; written there are {want}', fact=f'-> {got}', loc=loc)
+
+
+def _number_literal_obligations(run: Run, rule: str, src, g):
     """a number literal reaches its token whole: the text the token carries denotes the number the literal denotes (integer
     part, fraction and exponent)"""
     from ..finite import AV, const_av, Unknown, AbsRaise
